@@ -27,6 +27,8 @@ REQUIRED_PROBES = ("ops_done", "handles_checked", "alias_ops", "inplace_on_share
 
 REAL_VS_STUB = {'real': ['ak.color: CHText, CHText.Chunk, ColorFmt'], 'stub': ['nothing; operands whose __str__ raises are harness objects (fault injection)']}
 
+ASSUMPTIONS = ['the per-character model and the harness escape parser', 'x += [.., x, ..] is not generated (no counterpart on str); comparisons with empty coloured chunks at chunk level are left alone', "format specs follow [[fill]align][width]['s'] without leading zero in the width"]
+
 RULE = ("each run = 10-40 seeded operations by 2-3 holders over <= 8 shared handles (construct from str/chunk/handle/nested "
         "list parts, +, reflected +, in-place +=, join, index, slice with positive/negative/None/out-of-range bounds, "
         "fixed_len, format with fill/align/width, ==, alias, copy, drop) with 2-4 colours per run and injected conversion "
